@@ -160,3 +160,30 @@ def run_brew(case, tmp, train_fdr=0.23, override=True, max_iter=3, estimator=Non
 def full_keys(df, meta):
     cols = meta["key_cols"]
     return list(zip(*[df[c].tolist() for c in cols]))
+
+
+def rescore(case, tmp, models, order):
+    """Second brew call on the same files with the already trained fold models handed over in another order.
+    Returns the list of score arrays (or raises Rejected / Violation via guarded)."""
+    import mokapot
+
+    _, _, psms = build_datasets(case, tmp)
+    lognames = {getattr(m.estimator, "log", None) for m in models}
+    try:
+        with config_inject.chunk_sizes(predict=case.get("predict_chunk"), readall=case.get("readall_chunk")):
+            res = guarded(
+                mokapot.brew,
+                psms,
+                [models[i] for i in order],
+                test_fdr=case["test_fdr"],
+                folds=case["folds"],
+                max_workers=case["workers"],
+                rng=case["rng"],
+                allowed=ALLOWED_BREW,
+                sig="brew-pretrained",
+            )
+    finally:
+        for n in lognames:
+            if n:
+                recorder.drop_log(n)
+    return res[2]
